@@ -675,6 +675,102 @@ func raceProbe(r *rand.Rand) string {
 	return ""
 }
 
+func (q *qstore) arm() (gate, parked chan struct{}) {
+	gate, parked = make(chan struct{}), make(chan struct{})
+	q.mu.Lock()
+	q.gate, q.parked = gate, parked
+	q.mu.Unlock()
+	return
+}
+
+func (w *w09) bodyAndData(id int) (present bool, body int, data string) {
+	sb := w.rt.VerifTable().Lookup(uid(id))
+	if sb == nil {
+		return false, 0, ""
+	}
+	u := &spec.Unstructured{}
+	_ = spec.As(sb.Spec, u)
+	body, _ = num9(u.Fields["body"])
+	for _, e := range u.Env {
+		data = fmt.Sprint(e.Data)
+	}
+	return true, body, data
+}
+
+// raceProbe2 (Reconcile running): the handler of a value event is reloading a symbol - it has
+// read the spec and is parked reading the values - when the spec is deleted.  When everything has
+// settled the table must not hold the symbol.
+func raceProbe2(r *rand.Rand) string {
+	w := newW09(1, false, true)
+	defer w.close()
+	w.putVal(val9{id: 1, ns: 1, name: 1, data: 11})
+	w.putSpec(spec9{id: 1, ns: 1, kind: 1, body: 1 + r.Intn(3), env: []eref9{{key: 1, id: 1}}, copy: 1})
+	if !w.settle() {
+		return "race probe 2: no settling after the set-up"
+	}
+	if ok, _, _ := w.bodyAndData(1); !ok {
+		return "race probe 2: symbol missing after the set-up"
+	}
+	gate, parked := w.vals.arm()
+	w.putVal(val9{id: 1, ns: 1, name: 1, data: 12}) // the handler finds the value (parks: not yet), then Load parks
+	select {
+	case <-parked:
+	case <-time.After(2 * time.Second):
+		return "race probe 2: the value handler never reached the value store"
+	}
+	// parked in the handler's own lookup of the value: let it go and park the Load that follows
+	gate2, parked2 := w.vals.arm()
+	close(gate)
+	select {
+	case <-parked2:
+	case <-time.After(2 * time.Second):
+		return "race probe 2: the reload never reached the value store"
+	}
+	w.delSpec(1)
+	time.Sleep(20 * time.Millisecond) // the spec handler runs (or waits for the Load in flight)
+	close(gate2)
+	if !w.settle() {
+		return "race probe 2: Reconcile did not settle"
+	}
+	if ok, _, _ := w.bodyAndData(1); ok {
+		return "a spec deleted while a value-triggered reload was in flight is still in the table after everything settled"
+	}
+	return ""
+}
+
+// raceProbe3 (Reconcile running): a spec that refers to a value by name is being loaded - the Load
+// has read the values, the value does not exist yet - when the value is inserted and its event
+// handled.  When everything has settled the symbol must be bound to the value.
+func raceProbe3(r *rand.Rand) string {
+	w := newW09(1, false, true)
+	defer w.close()
+	d := 10 + r.Intn(5)
+	gate, parked := w.vals.arm()
+	w.putSpec(spec9{id: 1, ns: 1, kind: 1, body: 1, env: []eref9{{key: 1, name: 1}}, copy: 1})
+	select {
+	case <-parked:
+	case <-time.After(2 * time.Second):
+		return "race probe 3: the Load never reached the value store"
+	}
+	w.putVal(val9{id: 1, ns: 1, name: 1, data: d})
+	deadline := time.Now().Add(30 * time.Millisecond) // the value handler runs (or waits for the Load in flight)
+	for time.Now().Before(deadline) && !w.vals.settled(w.emitV) {
+		time.Sleep(time.Millisecond)
+	}
+	close(gate)
+	if !w.settle() {
+		return "race probe 3: Reconcile did not settle"
+	}
+	ok, _, data := w.bodyAndData(1)
+	if !ok {
+		return "race probe 3: symbol missing"
+	}
+	if data != fmt.Sprint(d) {
+		return fmt.Sprintf("a value inserted while the Load of a spec naming it was in flight is not bound after everything settled (data %q, value %d)", data, d)
+	}
+	return ""
+}
+
 func runC09(seed int64, n int, tier string) *Result {
 	r := rand.New(rand.NewSource(seed))
 	res := &Result{
@@ -686,7 +782,7 @@ func runC09(seed int64, n int, tier string) *Result {
 			"a history of 5-14 spec put (insert or in-place update) / spec delete / value put / value delete over 4 ids and two namespaces, environment entries by id, by name, by both, anonymous; " +
 			"mode 0: Load(nil) or Load(ids) at random points, often twice in a row; mode 1: Watch+Reconcile, waiting after each change until both streams are consumed; mode 2: bursts of changes then wait; " +
 			"observed: the table (id, namespace, kind, body, environment entries, built field, has-node) through the verif accessor and the load/unload hook log per step; " +
-			"plus one scripted overlap of two Loads per 25 cases; non-trivial = two or more symbols in the table at some point; distinct by rendered case",
+			"plus three scripted overlaps per 25 cases (two Loads; a value-triggered reload in flight while its spec is deleted; a Load in flight while the value it names is inserted); non-trivial = two or more symbols in the table at some point; distinct by rendered case",
 		Hist: map[string]int{},
 	}
 	for i := 0; i < n; i++ {
@@ -694,6 +790,14 @@ func runC09(seed int64, n int, tier string) *Result {
 		if fail == "" && i%25 == 0 {
 			fail = raceProbe(r)
 			res.Hist["race-probe"]++
+		}
+		if fail == "" && i%25 == 5 {
+			fail = raceProbe2(r)
+			res.Hist["race-probe-2"]++
+		}
+		if fail == "" && i%25 == 10 {
+			fail = raceProbe3(r)
+			res.Hist["race-probe-3"]++
 		}
 		res.Cases = append(res.Cases, Case{Gallina: g, Input: in, Nontrivial: nt, OracleFail: fail})
 	}
